@@ -1,0 +1,27 @@
+//go:build verif
+
+// Package verifhook provides named yield points for the external
+// verification harness. It is only active with the "verif" build tag;
+// without the tag Point is an empty function.
+package verifhook
+
+import "sync/atomic"
+
+var hook atomic.Pointer[func(string)]
+
+// Set installs f as the function called at every Point. A nil f
+// removes the hook.
+func Set(f func(string)) {
+	if f == nil {
+		hook.Store(nil)
+		return
+	}
+	hook.Store(&f)
+}
+
+// Point is a named yield point.
+func Point(name string) {
+	if f := hook.Load(); f != nil {
+		(*f)(name)
+	}
+}
